@@ -38,6 +38,7 @@ package keeper
 // verif:func (Keeper).SetClientState
 //@ modifies xibc(ctx)
 //@ ensures [packet-state-kept] packetStateKept(old(xibc(ctx)), xibc(ctx))
+//@ ensures [own-consensus-states-kept] forall rev uint64 :: forall n uint64 :: kvget(xibc(ctx), host.FullConsensusStateKey(chainName, types.NewHeight(rev, n))) == old(kvget(xibc(ctx), host.FullConsensusStateKey(chainName, types.NewHeight(rev, n))))
 
 // verif:func (Keeper).SetClientConsensusState
 //@ modifies xibc(ctx)
@@ -89,7 +90,20 @@ package keeper
 //@ ensures [reject-clean] err != nil && ncalls("UpgradeState") == 0 ==> xibc(ctx) == old(xibc(ctx))
 //@ ensures [packet-state-kept] packetStateKept(old(xibc(ctx)), xibc(ctx))
 
+// clearClientStore walks an iterator over the whole prefix store of the client: that an iterator yields every key
+// present is outside what the verifier models, so this contract is ASSUMED and backed by a bounded stand-in on the
+// real function and a real multistore (/verif/bounded/client_store_cleared_test.go.txt), labelled bounded
+// verif:func (Keeper).clearClientStore
+//@ trusted whole-store iteration; bounded stand-in client-store-cleared
+//@ modifies xibc(ctx)
+//@ ensures [consensus-states-gone] forall rev uint64 :: forall n uint64 :: !kvhas(xibc(ctx), host.FullConsensusStateKey(chainName, types.NewHeight(rev, n)))
+//@ ensures [client-state-gone]     !kvhas(xibc(ctx), host.FullClientStateKey(chainName))
+//@ ensures [packet-state-kept]     packetStateKept(old(xibc(ctx)), xibc(ctx))
+
 // verif:func (Keeper).ToggleClient
+// the new client is initialised on a store that holds no consensus state of the replaced client (consensus states of
+// another type make the BSC / ETH pruning loops fail on every later update: fix recorded in /verif/known_findings.txt)
+//@ callsite Initialize [replaced-client-cleared] forall rev uint64 :: forall n uint64 :: !kvhas(xibc(ctx), host.FullConsensusStateKey(chainName, types.NewHeight(rev, n)))
 //@ nopanic
 //@ modifies xibc(ctx)
 //@ ensures [exists]         err == nil ==> kvhas(old(xibc(ctx)), host.FullClientStateKey(chainName))
